@@ -534,3 +534,26 @@ package wasp
 //@   requires n != nil && n.state != nil
 //@   ensures [C11] #metaPeerDeletes == old(#metaPeerDeletes) + 1 && #lastMetaPeerDeleted == id
 //@ immutable nodeMemberManager.id, log, state
+
+// ---- state.go: the local session registry (C11, C20) ------------------------------------------
+//@ guarded lockedMapState.sessions by mtx
+//@ guarded simpleMidPool.intervals, started by mtx
+//@ pred lms_wf(s *lockedMapState) := s != nil && s.sessions != nil
+//@ func (*lockedMapState).Get(id string) (r *sessions.Session)
+//@   requires lms_wf(s)
+//@   ensures r == (if id in s.sessions then s.sessions[id] else nil)
+//@   modifies nothing
+//@ func (*lockedMapState).Create(id string, session *sessions.Session) (prev *sessions.Session)
+//@   requires lms_wf(s)
+//@   ensures lms_wf(s) && (forall k string :: k in s.sessions <==> (old(k in s.sessions) || k == id)) && s.sessions[id] == session
+//@   ensures forall k string :: k != id ==> s.sessions[k] == old(s.sessions[k])
+//@   modifies mapof(s.sessions)
+//@ func (*lockedMapState).Delete(id string) (prev *sessions.Session)
+//@   requires lms_wf(s)
+//@   ensures lms_wf(s) && (forall k string :: k in s.sessions <==> (old(k in s.sessions) && k != id))
+//@   ensures forall k string :: k != id ==> s.sessions[k] == old(s.sessions[k])
+//@   modifies mapof(s.sessions)
+//@ func (*lockedMapState).ListSessions() (out []*sessions.Session)
+//@   requires lms_wf(s)
+//@ loop (*lockedMapState).ListSessions#1
+//@   invariant lms_wf(s) && rlocked(s.mtx)
